@@ -38,11 +38,17 @@
     monitor of this property directly on the real code: exhaustive enumeration of first-round
     resolution orders and sampled later rounds through the schedule hook, every permutation of
     module-addition order through the API, repeated builds in one process and in fresh processes
-    with real hash seeds -- all compared byte for byte. *)
+    with real hash seeds -- all compared byte for byte.
+    REFUTED ON THE MODEL without the side conditions (RefutedWitnesses*.v; open findings F4b, F7b):
+    [C09_order_dependence_F4b_refuted] -- collision_free false: two permutation schedules with different verdicts (width 4)
+    and with different files (width 8); [C09_order_dependence_F7b_refuted] -- collision_free but not clean: accepted under
+    one schedule, an error under another. *)
 From Coq Require Import List Bool Permutation NArith String.
 From PyxisModel Require Import Base Grammar SemTypes Registry Sem ScopeLemmas Confluence WholeBuild Monotone
      OrderIndep OutputIndep Emit Examples.
 Import ListNotations.
+
+From PyxisModel Require RefutedInputs RefutedWitnessesOrder RefutedWitnessesEmit RefutedWitnessesFn.
 
 Theorem C09_order_independent_abstract :
   forall (K V : Type) (eqb : K -> K -> bool), (forall a b, reflect (a = b) (eqb a b)) ->
@@ -120,3 +126,43 @@ Print Assumptions C09_output_order_independent.
 Example C09_side_conditions_example :
   exists st0, input_state 4 ex_mods = Ok st0 /\ collision_freeb (st_reg st0) = true /\ clean_stateb st0 = true.
 Proof. vm_compute. eexists; repeat split; reflexivity. Qed.
+
+Theorem C09_order_dependence_F4b_refuted :
+  (exists (ks1 ks2 : list N) (st0 st1 : sstate) (msg : string),
+       (forall l : list path, Permutation (hook_schedule ks1 l) l) /\
+       (forall l : list path, Permutation (hook_schedule ks2 l) l) /\
+       input_state 4 RefutedInputs.f4b_mods = Ok st0 /\
+       pyxis_resolve (hook_schedule ks1) 4 RefutedInputs.f4b_mods = BOk st1 /\
+       pyxis_resolve (hook_schedule ks2) 4 RefutedInputs.f4b_mods = BErr msg /\
+       ~
+       same_build st0 (pyxis_resolve (hook_schedule ks1) 4 RefutedInputs.f4b_mods)
+         (pyxis_resolve (hook_schedule ks2) 4 RefutedInputs.f4b_mods)) /\
+    (exists (ks1 ks2 : list N) (st1 st2 : sstate) (files1 files2 : list (string * Sexp.sexp)),
+       (forall l : list path, Permutation (hook_schedule ks1 l) l) /\
+       (forall l : list path, Permutation (hook_schedule ks2 l) l) /\
+       pyxis_resolve (hook_schedule ks1) 8 RefutedInputs.f4b_mods = BOk st1 /\
+       write_all st1 = Ok files1 /\
+       pyxis_resolve (hook_schedule ks2) 8 RefutedInputs.f4b_mods = BOk st2 /\
+       write_all st2 = Ok files2 /\
+       RefutedInputs.size_check_of files1 "a.rs" "User" = Some (8%N, 8%N) /\
+       RefutedInputs.size_check_of files2 "a.rs" "User" = Some (16%N, 16%N) /\
+       write_all st1 <> write_all st2).
+Proof. exact RefutedWitnessesOrder.C09_order_dependence_F4b_refuted. Qed.
+Print Assumptions C09_order_dependence_F4b_refuted.
+
+Theorem C09_order_dependence_F7b_refuted :
+  exists (ks1 ks2 : list N) (st0 st1 : sstate) (files1 : list (string * Sexp.sexp)) 
+    (msg : string),
+      (forall l : list path, Permutation (hook_schedule ks1 l) l) /\
+      (forall l : list path, Permutation (hook_schedule ks2 l) l) /\
+      input_state 4 RefutedInputs.f7b_mods = Ok st0 /\
+      collision_free (st_reg st0) /\
+      clean_stateb st0 = false /\
+      pyxis_resolve (hook_schedule ks1) 4 RefutedInputs.f7b_mods = BOk st1 /\
+      write_all st1 = Ok files1 /\
+      pyxis_resolve (hook_schedule ks2) 4 RefutedInputs.f7b_mods = BErr msg /\
+      ~
+      same_build st0 (pyxis_resolve (hook_schedule ks1) 4 RefutedInputs.f7b_mods)
+        (pyxis_resolve (hook_schedule ks2) 4 RefutedInputs.f7b_mods).
+Proof. exact RefutedWitnessesOrder.C09_order_dependence_F7b_refuted. Qed.
+Print Assumptions C09_order_dependence_F7b_refuted.
